@@ -6,7 +6,7 @@
    signer — the VM itself is not modelled here; the block the ledger accepts is C06's matter, here the
    conditions a packed prefix satisfies are proved. *)
 From NG Require Import Common.Tactics Admission.Fee Admission.FeeProofs Admission.Admit Admission.AdmitProofs
-  Admission.Conflicts Admission.Examples Mempool.Model Mempool.Spec Mempool.Examples.
+  Admission.Conflicts Admission.Refresh Admission.Examples Mempool.Model Mempool.Spec Mempool.Examples.
 Open Scope N_scope.
 
 (* the checks before the pool pass exactly when every listed condition holds *)
@@ -93,6 +93,25 @@ Theorem C07_fee_threshold_exact : forall c t base shapes,
 Proof. exact fee_threshold_exact. Qed.
 Print Assumptions C07_fee_threshold_exact.
 
+(* refresh after a block (IsTxStillRelevant as the filter of RemoveStale): witnesses are seen through an oracle
+   indexed by the chain state; the refresh re-verifies every transaction that carries a witness other than a
+   plain signature / m-of-n contract (own non-standard script or deployed contract); standard witnesses are
+   state-independent (a function of the transaction hash, the keys and the signatures only). Then, after any
+   sequence of submissions and blocks, every witness of every pooled transaction verifies in the current state *)
+Theorem C07_pool_witnesses_valid_after_refresh : forall (state : Type) (st_height : state -> N) s0 ops,
+  Forall (op_wf state) ops ->
+  let c := prun state st_height true s0 ops in
+  forall t, In t (snd c) -> forall w, In w (p_wits state t) -> w_ok state w (fst c) = true.
+Proof. exact pool_witnesses_valid_after_refresh. Qed.
+Print Assumptions C07_pool_witnesses_valid_after_refresh.
+
+(* re-verifying deployed-contract witnesses only is not enough *)
+Theorem C07_refresh_scripts_not_rechecked_refuted :
+  let c := prun N (fun h => h) false 3 [PSubmit N ex_ptx; PBlock N 4; PBlock N 6] in
+  snd c = [ex_ptx] /\ w_ok N ex_script_wit (fst c) = false.
+Proof. exact refresh_scripts_not_rechecked_refuted. Qed.
+Print Assumptions C07_refresh_scripts_not_rechecked_refuted.
+
 (* packing: a prefix of the pool order within the three block limits (for the header size the code uses) *)
 Theorem C07_pack_valid : forall U bal s max_tx max_size max_sysfee hdr,
   Inv U bal s ->
@@ -127,6 +146,11 @@ Proof. exact pack_short_header_refuted. Qed.
 Print Assumptions C07_pack_short_header_refuted.
 
 (* non-vacuity *)
+Example C07_example_refresh :
+  Forall (op_wf N) [PSubmit N ex_ptx; PBlock N 4; PBlock N 6]
+  /\ snd (prun N (fun h => h) true 3 [PSubmit N ex_ptx; PBlock N 4]) = [ex_ptx]
+  /\ snd (prun N (fun h => h) true 3 [PSubmit N ex_ptx; PBlock N 4; PBlock N 6]) = [].
+Proof. exact refresh_example. Qed.
 Example C07_example_conflict_history :
   let es := [mkEvent 4 [9; 2] [0]; mkEvent 15 [9; 2] [0]; mkEvent 16 [9; 3] [0]] in
   has_conflict (build es) 0 [2] 20 10 = true        (* only the newer record of signer 2 is traceable *)
